@@ -326,6 +326,10 @@ func demangleSingleFunction(fn *profile.Function, options []demangle.Option) {
 				name = removeMatching(name, '<', '>')
 			}
 		}
+		if name == "" {
+			// The heuristics ate the whole name, e.g. "(a::b)".
+			name = fn.SystemName
+		}
 	}
 	fn.Name = name
 }
